@@ -38,7 +38,7 @@ CFG = dict(
     n=dict(quick=30, thorough=400),
     shard=6,
     deps=["Common", "C08"],
-    rule="generated rules.Config (4 mark layouts, 6 workload-prefix sets, 0-13 inbound/outbound failsafe entries with nets of either "
+    rule="both renderers (rules.NewRenderer(cfg, false|true), iptables and nftables text, ~50/50); generated rules.Config (4 mark layouts, 6 workload-prefix sets, 0-13 inbound/outbound failsafe entries with nets of either "
          "family / bare IPs / unparsable nets, IPIP, VXLAN v4/v6 with port possibly equal to a failsafe port, Wireguard, OpenStack special "
          "cases, DefaultEndpointToHostAction x FilterAllowAction x MangleAllowAction x FilterDenyAction, both IP versions) x generated "
          "workloads, named + wildcard host endpoints, tiers/groups/profiles with real policy chains (normal, untracked, pre-DNAT); "
@@ -48,14 +48,19 @@ CFG = dict(
          "non-trivial = >=8 probes, >=1 failsafe entry, >=8 chains in the filter table; distinct by (class, config, endpoints)",
     trusted=["Coq 8.16.1 kernel + vm_compute",
              "Common/Ipt.v match_one/apply_mark/run as the meaning of an iptables rule (kernel evaluation)",
-             "harness/C40/cmd/parse.go: iptables text -> AST grammar (C08's, extended: interfaces, conntrack, addrtype, rpfilter, ipvs, jumps)",
+             "harness/C40/cmd/parse.go: iptables and nftables text -> AST grammar (C08's, extended: interfaces incl. + / * wildcards, conntrack state/status, "
+             "addrtype / fib, rpfilter / fib oif 0, ipvs, jumps, notrack); an nft verdict-map rule `iifname vmap @M` is expanded by the driver into one "
+             "exact-interface rule per element of the REAL DispatchMappings output (a vmap lookup takes the verdict of the element equal to the key, else continues)",
+             "harness/C40/shims/felix/dataplane/linux/zz_verif_c40.go: recording generictables.Table fakes under the REAL (*InternalDataplane).setUpIptablesNormal",
              "hand-written model coq/theories/C40/Model.v tied to felix/rules/static.go by this correspondence run (structural equality of rule lists)"],
     assumptions=["netfilter hook order raw -> mangle -> filter; a table's ACCEPT ends that table only; DROP/REJECT end the packet; "
                  "between tables only skb mark and conntrack state change (theorems are per hook for arbitrary entry mark / ct state)",
-                 "Felix's top-level chains are the first rule of the kernel chains (int_dataplane.go setUpIptablesNormal; read, not executed by the driver)",
+                 "hook wiring OBSERVED: the static chains and the rules put into the kernel chains are the UpdateChains / InsertOrAppendRules / AppendRules calls of the "
+                 "real setUpIptablesNormal (raw, mangle, filter tables; NAT/ARP tables and XDP absent), compared with Model.hook_wiring; that insert-or-append puts the rule at "
+                 "the head of the kernel chain is the table layer's contract (not exercised)",
                  "IP set contents, address types (LOCAL), RPF result, conntrack DNAT status are oracles; the address-type oracle does not look at the skb mark",
                  "PARTIAL: NAT table, mangle POSTROUTING, Wireguard crypto routing, BPF-mode raw chains, kube-proxy IPVS paths (KubeIPVSSupportEnabled=false), "
-                 "nftables renderer / flow offload are outside the model; only the iptables renderer is driven",
+                 "nftables flow offload (NFTablesFlowTableOffload=false) are outside the model",
                  "callee chains (dispatch, endpoint, policy, profile, cali-rpf-skip, cali-cidr-block) are universally quantified in the theorems, constrained only by "
                  "the decidable shape conditions of Shape.v, which every run evaluates on the real renderer's chains (Spec.shapes_ok)",
                  "failsafe clause: conntrack state INVALID excluded (c40_failsafe_invalid_ct_refuted: endpoint chains drop INVALID before the failsafe jump); "
